@@ -1,9 +1,101 @@
 import Gzx.Util
+import Gzx.Ref.QR
+import Gzx.Ref.DMSizes
+import Gzx.Model.QRVersionChoice
 namespace Gzx.Driver.C13
-open Gzx
+open Gzx Gzx.QRRef Gzx.QRVersionChoice
+
+def modeOfName? : String → Option Mode
+  | "NUMERIC" => some .numeric | "ALPHANUMERIC" => some .alnum | "BYTE" => some .byte | "KANJI" => some .kanji
+  | _ => none
+
+/-- the ECC 200 symbols of the standard as rows of the model's symbol table (the Reed-Solomon block
+    fields play no part in the lookup) -/
+def refSymbols : List SymbolInfo :=
+  DMSizesRef.byCapacity.map (fun s =>
+    let h := DMSizesRef.regions s.width s.rectangular
+    let v := if s.rectangular then 1 else DMSizesRef.regions s.height false
+    { rectangular := s.rectangular, dataCapacity := s.dataCapacity, errorCodewords := s.errorCodewords,
+      matrixWidth := (s.width - 2 * h) / h, matrixHeight := (s.height - 2 * v) / v, dataRegions := h * v,
+      rsBlockData := s.dataCapacity, rsBlockError := s.errorCodewords })
+
+def parseShape? : String → Option Shape
+  | "none" => some .none | "square" => some .square | "rect" => some .rectangle | _ => none
+
+def parseDim? (s : String) : Option (Option (Nat × Nat)) :=
+  if s == "-" then some none
+  else match s.splitOn "x" with
+    | [w, h] => match parseNat? w, parseNat? h with
+      | some w, some h => some (some (w, h))
+      | _, _ => none
+    | _ => none
+
+def showSym (s : SymbolInfo) : String := s!"{symbolWidth s}x{symbolHeight s}:{s.dataCapacity}"
+
+def showLookup : Res (Option SymbolInfo) → String
+  | .ok (some s) => showSym s
+  | .ok none => "nil"
+  | .error e => "ERR:" ++ e.tag
+
+def parseHint? (s : String) : Option HintVal :=
+  if s.startsWith "int:" then (parseInt? (s.drop 4).toString).map .int
+  else if s.startsWith "str:" then some (.str (s.drop 4).toString)
+  else if s == "other" then some .other
+  else none
+
+/-- capacity in characters from the reference formulae: the largest n whose payload fits -/
+def refCapacity (m : Mode) (ec : EC) (v : Nat) : Nat :=
+  let B := 8 * dataCodewords v ec - 4 - countBits m v
+  match m with
+  | .numeric => 3 * (B / 10) + (if B % 10 ≥ 7 then 2 else if B % 10 ≥ 4 then 1 else 0)
+  | .alnum => 2 * (B / 11) + (if B % 11 ≥ 6 then 1 else 0)
+  | .byte => B / 8
+  | .kanji => B / 13
+
+def updSeq (cur : Option SymbolInfo) (shape : Shape) (mn mx : Option (Nat × Nat)) : List Nat → List String
+  | [] => []
+  | l :: ls =>
+    match updateSymbolInfoByLength refSymbols cur l shape mn mx with
+    | .ok r => showLookup (.ok r) :: updSeq r shape mn mx ls
+    | .error e => ("ERR:" ++ e.tag) :: updSeq none shape mn mx ls
 
 /-- line-protocol handler of suite `c13` (arguments after the suite name) -/
 def handle : List String → String
+  | ["caps"] =>
+    ";".intercalate (Mode.all.flatMap (fun m => EC.all.map (fun ec =>
+      showNatList ((List.range 40).map (fun i => refCapacity m ec (i + 1))))))
+  | "ver" :: args =>
+    match (argOf args "ec").bind EC.ofName?, (argOf args "mode").bind modeOfName?, argNat args "hdr", argNat args "n" with
+    | some ec, some m, some hdr, some n =>
+      let hint := (argOf args "hint").bind parseHint?
+      match encodeVersion refTables ec m hdr (dataBitsLen m n) n hint with
+      | .ok v => s!"ok {v.number}"
+      | .error e => "ERR:" ++ e.tag
+    | _, _, _, _ => "bad-op"
+  | ["rec", ec, m, hdr, data] =>
+    match EC.ofName? ec, modeOfName? m, parseNat? hdr, parseNat? data with
+    | some ec, some m, some hdr, some data =>
+      match recommendVersion refTables ec m hdr data with
+      | .ok v => s!"ok {v.number}"
+      | .error e => "ERR:" ++ e.tag
+    | _, _, _, _ => "bad-op"
+  | ["mode", text] =>
+    match parseHex? text with
+    | some t => (chooseMode t none).name
+    | none => "bad-op"
+  | ["mode", text, sjis] =>
+    match parseHex? text, parseHex? sjis with
+    | some t, some s => (chooseMode t (some s)).name
+    | _, _ => "bad-op"
+  | ["dmref"] => ";".intercalate (refSymbols.map showSym)
+  | ["lookup", n, shape, mn, mx, fail] =>
+    match parseNat? n, parseShape? shape, parseDim? mn, parseDim? mx with
+    | some n, some shape, some mn, some mx => showLookup (symbolLookup refSymbols n shape mn mx (fail == "1"))
+    | _, _, _, _ => "bad-op"
+  | ["upd", shape, mn, mx, seq] =>
+    match parseShape? shape, parseDim? mn, parseDim? mx, parseNatList? seq with
+    | some shape, some mn, some mx, some ls => ";".intercalate (updSeq none shape mn mx ls)
+    | _, _, _, _ => "bad-op"
   | _ => "bad-op"
 
 end Gzx.Driver.C13
